@@ -584,3 +584,207 @@ Proof.
   - unfold m, tt_merge, tt_merge_with. cbn [tt_sum]. apply add_val_same_exp.
     destruct W1 as (_ & _ & S1), W2 as (_ & _ & S2). congruence.
 Qed.
+
+(* sequences of merges stay inside the theorem *)
+Definition zsum (l : list Z) : Z := fold_right Z.add 0 l.
+
+Lemma merge_all_componentwise c ts : Forall (wf_tt c) ts -> forall t, wf_tt c t ->
+  let m := fold_left tt_merge ts t in
+  wf_tt c m /\
+  (forall code key,
+     group_base m code key = group_base t code key + zsum (map (fun x => group_base x code key) ts) /\
+     group_amount m code key = group_amount t code key + zsum (map (fun x => group_amount x code key) ts) /\
+     group_suramount m code key =
+       group_suramount t code key + zsum (map (fun x => group_suramount x code key) ts)) /\
+  (forall code,
+     cat_amount m code = cat_amount t code + zsum (map (fun x => cat_amount x code) ts) /\
+     cat_surcharge m code = fold_left opt_sum (map (fun x => cat_surcharge x code) ts) (cat_surcharge t code)) /\
+  val (tt_sum m) = val (tt_sum t) + zsum (map (fun x => val (tt_sum x)) ts).
+Proof.
+  intros F. induction F as [|t2 ts W2 F IH]; intros t W; cbn [fold_left map zsum fold_right].
+  - split; [exact W|]. repeat split; lia.
+  - destruct (merge_componentwise c t t2 W W2) as (Wm & G & C & S).
+    destruct (IH _ Wm) as (Wf & G' & C' & S'). split; [exact Wf|]. split; [|split].
+    + intros code key. destruct (G' code key) as (H1 & H2 & H3). destruct (G code key) as (K1 & K2 & K3 & _).
+      fold (zsum (map (fun x => group_base x code key) ts)).
+      fold (zsum (map (fun x => group_amount x code key) ts)).
+      fold (zsum (map (fun x => group_suramount x code key) ts)).
+      rewrite H1, H2, H3, K1, K2, K3. repeat split; lia.
+    + intros code. destruct (C' code) as (H1 & H2). destruct (C code) as (K1 & K2 & _).
+      fold (zsum (map (fun x => cat_amount x code) ts)).
+      rewrite H1, H2, K1, K2. split; [lia|reflexivity].
+    + fold (zsum (map (fun x => val (tt_sum x)) ts)). rewrite S', S. lia.
+Qed.
+
+(* ---- (c) operand order only affects row order ---- *)
+Lemma opt_sum_comm a b : opt_sum a b = opt_sum b a.
+Proof. destruct a, b; cbn [opt_sum]; try reflexivity. f_equal. lia. Qed.
+
+Lemma merge_comm_up_to_order c t1 t2 : wf_tt c t1 -> wf_tt c t2 ->
+  let a := tt_merge t1 t2 in
+  let b := tt_merge t2 t1 in
+  (forall code key,
+     group_base a code key = group_base b code key /\
+     group_amount a code key = group_amount b code key /\
+     group_suramount a code key = group_suramount b code key /\
+     has_group a code key = has_group b code key) /\
+  (forall code,
+     cat_amount a code = cat_amount b code /\
+     cat_surcharge a code = cat_surcharge b code /\
+     has_cat a code = has_cat b code) /\
+  val (tt_sum a) = val (tt_sum b) /\ exp (tt_sum a) = exp (tt_sum b).
+Proof.
+  intros W1 W2 a b.
+  destruct (merge_componentwise c t1 t2 W1 W2) as (Wa & G1 & C1 & S1).
+  destruct (merge_componentwise c t2 t1 W2 W1) as (Wb & G2 & C2 & S2).
+  fold a in Wa, G1, C1, S1. fold b in Wb, G2, C2, S2.
+  split; [|split; [|split]].
+  - intros code key. destruct (G1 code key) as (H1 & H2 & H3 & H4).
+    destruct (G2 code key) as (K1 & K2 & K3 & K4).
+    rewrite H1, H2, H3, H4, K1, K2, K3, K4. repeat split; try lia. apply orb_comm.
+  - intros code. destruct (C1 code) as (H1 & H2 & H3). destruct (C2 code) as (K1 & K2 & K3).
+    rewrite H1, H2, H3, K1, K2, K3. repeat split; [lia|apply opt_sum_comm|apply orb_comm].
+  - lia.
+  - destruct Wa as (_ & _ & Ea), Wb as (_ & _ & Eb). congruence.
+Qed.
+
+(* ------------------------------------------------------------------------------------------ *)
+(* (d) Negate                                                                                   *)
+(* ------------------------------------------------------------------------------------------ *)
+Definition rt_negated (r' r : rate_total) : Prop :=
+  rt_key r' = rt_key r /\ rt_country r' = rt_country r /\ rt_ext r' = rt_ext r /\
+  rt_pct r' = rt_pct r /\ rt_sur r' = rt_sur r /\
+  rt_base r' = negate (rt_base r) /\ rt_amount r' = negate (rt_amount r) /\
+  rt_suramount r' = negate (rt_suramount r).
+
+Definition ct_negated (c' c : cat_total) : Prop :=
+  ct_code c' = ct_code c /\ ct_retained c' = ct_retained c /\
+  Forall2 rt_negated (ct_rates c') (ct_rates c) /\
+  ct_amount c' = negate (ct_amount c) /\
+  ct_surcharge c' = option_map negate (ct_surcharge c) /\
+  ct_precise c' = negate (ct_precise c).
+
+Definition tt_negated (t' t : tax_total) : Prop :=
+  Forall2 ct_negated (tt_cats t') (tt_cats t) /\
+  tt_sum t' = negate (tt_sum t) /\ tt_precise t' = negate (tt_precise t).
+
+Lemma Forall2_map_l {A} (R : A -> A -> Prop) (f : A -> A) l :
+  (forall x, R (f x) x) -> Forall2 R (map f l) l.
+Proof. intros H. induction l as [|x l IH]; cbn [map]; constructor; auto. Qed.
+
+Lemma negate_flips_everything t : tt_negated (tt_negate t) t.
+Proof.
+  unfold tt_negated, tt_negate. cbn [tt_cats tt_sum tt_precise]. repeat split.
+  apply Forall2_map_l. intros ct. unfold ct_negated, ct_negate.
+  cbn [ct_code ct_retained ct_rates ct_amount ct_surcharge ct_precise]. repeat split.
+  apply Forall2_map_l. intros r. unfold rt_negated, rt_negate. cbn. repeat split.
+Qed.
+
+Lemma rt_negate_involutive r : rt_negate (rt_negate r) = r.
+Proof. destruct r. unfold rt_negate. cbn. rewrite !negate_involutive. reflexivity. Qed.
+
+Lemma map_id_ext {A} (f : A -> A) l : (forall x, f x = x) -> map f l = l.
+Proof. intros H. induction l as [|x l IH]; cbn [map]; [reflexivity|]. rewrite H, IH. reflexivity. Qed.
+
+Lemma ct_negate_involutive ct : ct_negate (ct_negate ct) = ct.
+Proof.
+  destruct ct as [code ret rates am sur pr]. unfold ct_negate.
+  cbn [ct_code ct_retained ct_rates ct_amount ct_surcharge ct_precise].
+  rewrite map_map, (map_id_ext _ rates rt_negate_involutive), !negate_involutive.
+  destruct sur as [s|]; cbn [option_map]; [rewrite negate_involutive|]; reflexivity.
+Qed.
+
+Lemma tt_negate_involutive t : tt_negate (tt_negate t) = t.
+Proof.
+  destruct t as [cats s p]. unfold tt_negate. cbn [tt_cats tt_sum tt_precise].
+  rewrite map_map, (map_id_ext _ cats ct_negate_involutive), !negate_involutive. reflexivity.
+Qed.
+
+(* in the lookup view *)
+Lemma cat_of_negate t code : cat_of (tt_negate t) code = option_map ct_negate (cat_of t code).
+Proof.
+  unfold cat_of, tt_negate. cbn [tt_cats]. rewrite !find_cat_k. apply kfind_map. reflexivity.
+Qed.
+
+Lemma group_of_negate t code key :
+  group_of (tt_negate t) code key = option_map rt_negate (group_of t code key).
+Proof.
+  unfold group_of. rewrite cat_of_negate. destruct (cat_of t code) as [ct|]; cbn [option_map]; [|reflexivity].
+  unfold ct_negate. cbn [ct_rates]. rewrite !find_group_k. apply kfind_map. reflexivity.
+Qed.
+
+Lemma rt_negate_wf c r : wf_rt c r -> wf_rt c (rt_negate r).
+Proof.
+  intros (B & A & S & P & Z). unfold wf_rt, rt_negate. cbn. repeat split; try assumption.
+  intros N. rewrite (Z N). reflexivity.
+Qed.
+
+Lemma ct_negate_wf c ct : wf_ct c ct -> wf_ct c (ct_negate ct).
+Proof.
+  intros (D & F & A & S). unfold wf_ct, ct_negate. cbn [ct_rates ct_amount ct_surcharge]. repeat split.
+  - apply distinct_groups_k. apply map_distinct; [reflexivity|]. apply D.
+  - apply Forall_map. eapply Forall_impl; [|exact F]. apply rt_negate_wf.
+  - exact A.
+  - intros s. destruct (ct_surcharge ct) as [x|]; cbn [option_map]; [|discriminate].
+    intros H. injection H as <-. cbn [negate exp]. apply S. reflexivity.
+Qed.
+
+Lemma tt_negate_wf c t : wf_tt c t -> wf_tt c (tt_negate t).
+Proof.
+  intros (D & F & S). unfold wf_tt, tt_negate. cbn [tt_cats tt_sum]. repeat split.
+  - apply distinct_codes_k. apply map_distinct; [reflexivity|]. apply distinct_codes_k, D.
+  - apply Forall_map. eapply Forall_impl; [|exact F]. apply ct_negate_wf.
+  - exact S.
+Qed.
+
+Lemma negate_flips_lookup t :
+  (forall code key,
+     group_base (tt_negate t) code key = - group_base t code key /\
+     group_amount (tt_negate t) code key = - group_amount t code key /\
+     group_suramount (tt_negate t) code key = - group_suramount t code key /\
+     has_group (tt_negate t) code key = has_group t code key) /\
+  (forall code,
+     cat_amount (tt_negate t) code = - cat_amount t code /\
+     cat_surcharge (tt_negate t) code = option_map Z.opp (cat_surcharge t code) /\
+     has_cat (tt_negate t) code = has_cat t code) /\
+  val (tt_sum (tt_negate t)) = - val (tt_sum t) /\
+  val (tt_precise (tt_negate t)) = - val (tt_precise t) /\
+  (forall c, wf_tt c t -> wf_tt c (tt_negate t)).
+Proof.
+  split; [|split; [|split; [|split]]].
+  - intros code key. unfold group_base, group_amount, group_suramount, has_group.
+    rewrite group_of_negate. destruct (group_of t code key) as [g|]; cbn [option_map]; repeat split.
+  - intros code. unfold cat_amount, cat_surcharge, has_cat. rewrite cat_of_negate.
+    destruct (cat_of t code) as [ct|]; cbn [option_map]; repeat split.
+    unfold ct_negate. cbn [ct_surcharge]. destruct (ct_surcharge ct); reflexivity.
+  - reflexivity.
+  - reflexivity.
+  - intros c. apply tt_negate_wf.
+Qed.
+
+Lemma merge_negate_zero c t : wf_tt c t ->
+  let m := tt_merge t (tt_negate t) in
+  (forall code key,
+     group_base m code key = 0 /\ group_amount m code key = 0 /\ group_suramount m code key = 0 /\
+     has_group m code key = has_group t code key) /\
+  (forall code,
+     cat_amount m code = 0 /\
+     cat_surcharge m code = option_map (fun _ => 0) (cat_surcharge t code) /\
+     has_cat m code = has_cat t code) /\
+  val (tt_sum m) = 0 /\ val (tt_precise m) = 0 /\ wf_tt c m.
+Proof.
+  intros W m.
+  destruct (merge_componentwise c t (tt_negate t) W (tt_negate_wf c t W)) as (Wm & G & C & S).
+  destruct (negate_flips_lookup t) as (G' & C' & S' & _ & _).
+  fold m in Wm, G, C, S.
+  split; [|split; [|split; [|split]]].
+  - intros code key. destruct (G code key) as (H1 & H2 & H3 & H4).
+    destruct (G' code key) as (K1 & K2 & K3 & K4).
+    rewrite H1, H2, H3, H4, K1, K2, K3, K4. repeat split; try lia. apply orb_diag.
+  - intros code. destruct (C code) as (H1 & H2 & H3). destruct (C' code) as (K1 & K2 & K3).
+    rewrite H1, H2, H3, K1, K2, K3. repeat split; [lia| |apply orb_diag].
+    destruct (cat_surcharge t code) as [x|]; cbn [option_map opt_sum]; [|reflexivity]. f_equal. lia.
+  - lia.
+  - unfold m, tt_merge, tt_merge_with, tt_negate. cbn [tt_precise]. apply add_negate_zero.
+  - exact Wm.
+Qed.
